@@ -251,3 +251,8 @@ pub fn __pos_not_ones(s: &[u64]) -> (r: Option<usize>)
 pub fn __last_is_zero64(v: &Vec<u64>) -> (r: bool)
     ensures r == (v@.len() > 0 && v@[v@.len() - 1] == 0)
 { unimplemented!() }
+
+// rule R47: `&mut v[a..e]` panics unless a <= e <= len (core::slice::index); kept as a proof obligation of the caller
+pub fn __slice_range_check(a: usize, e: usize, n: usize)
+    requires a <= e <= n
+{ }
